@@ -169,7 +169,8 @@ func (p *pep440Extension) init(input string) error {
 	bang := strings.IndexByte(input, '!')
 	if bang > 0 {
 		p.makeExt()
-		e, err := strconv.ParseUint(input[:bang], 10, 8)
+		// PEP 440 puts no bound on the epoch; it is kept in an int.
+		e, err := strconv.ParseUint(input[:bang], 10, strconv.IntSize-1)
 		if err != nil {
 			return err
 		}
